@@ -130,7 +130,7 @@ Proof.
   - cbn [fst]. eapply te_same; [| |exact K]; reflexivity.
   - destruct (is_idle c s); [|exact K]. destruct (id_lookup (s_ids s) i) as [ser|]; [|exact K].
     destruct (getjob (s_jobs s) ser) as [j|]; [|exact K].
-    destruct (j_done j && negb (done_pending ser (s_hub s))); [destruct (j_drop j && id_is (s_ids s) (j_id j) ser)|]; cbn [fst];
+    destruct (j_done j); [destruct (j_drop j && id_is (s_ids s) (j_id j) ser)|]; cbn [fst];
       try exact K; (eapply te_same; [| |exact K]; reflexivity).
   - exact K.
   - destruct (id_lookup (s_ids s) i) as [ser|]; [|exact K]. cbn [fst].
